@@ -21,6 +21,26 @@ struct Node<T> {
 const REF_INIT: usize = 0x1000_0002;
 const REF_COUNT_MASK: usize = 0x0FFF_FFFF;
 
+// trace events / det schedule points for the non-atomic accesses that are shared between the
+// producers and the consumer (`tail`, `prev`, `value`); each event is emitted immediately before
+// the access it describes (`head`, `next` and `refs` are hooked atomics)
+#[cfg(may_verif)]
+#[allow(non_upper_case_globals)]
+mod vf {
+    use std::panic::Location;
+    #[track_caller]
+    const fn site() -> &'static Location<'static> {
+        Location::caller()
+    }
+    pub static tail: &Location<'static> = site();
+    pub static prev: &Location<'static> = site();
+    pub static value: &Location<'static> = site();
+    #[inline]
+    pub(super) fn ev<A>(s: &'static Location<'static>, a: *const A, op: &'static str, arg: u64, f: impl FnOnce() -> u64) {
+        crate::verif::op(s, a as usize, op, arg, 0, 0, f);
+    }
+}
+
 #[cfg(may_verif)]
 impl<T> Drop for Node<T> {
     fn drop(&mut self) {
@@ -101,6 +121,8 @@ impl<T> Entry<T> {
             }
 
             // this is a new tail just return
+            #[cfg(may_verif)]
+            vf::ev(vf::prev, &node.prev, "load", 0, || node.prev as u64);
             if node.prev.is_null() {
                 return None;
             }
@@ -123,9 +145,13 @@ impl<T> Entry<T> {
                 node.refs.fetch_and(REF_COUNT_MASK, Ordering::AcqRel);
 
                 // this is not the last node, just unlink it
+                #[cfg(may_verif)]
+                vf::ev(vf::prev, &(*next).prev, "store", node.prev as u64, || 0);
                 (*next).prev = prev;
                 prev.next.store(next, Ordering::Release);
 
+                #[cfg(may_verif)]
+                vf::ev(vf::value, &node.value, "take", 0, || node.value.is_some() as u64);
                 let ret = node.value.take();
 
                 // since self is not dropped, below is always false
@@ -189,8 +215,12 @@ impl<T> Queue<T> {
         unsafe {
             let node = Node::new(Some(t));
             let prev = self.head.swap(node, Ordering::AcqRel);
+            #[cfg(may_verif)]
+            vf::ev(vf::prev, &(*node).prev, "store", prev as u64, || 0);
             (*node).prev = prev;
             (*prev).next.store(node, Ordering::Release);
+            #[cfg(may_verif)]
+            vf::ev(vf::tail, self.tail.get(), "load", prev as u64, || *self.tail.get() as u64);
             let tail = *self.tail.get();
             let is_head = std::ptr::eq(tail, prev);
             (Entry(ptr::NonNull::new_unchecked(node)), is_head)
@@ -268,11 +298,17 @@ impl<T> Queue<T> {
             assert!(refs & REF_COUNT_MASK != 0);
 
             // clear the prev pointer indicate a new end point
+            #[cfg(may_verif)]
+            vf::ev(vf::prev, &(*next).prev, "store", 0, || 0);
             (*next).prev = ptr::null_mut();
             // move the tail to next
+            #[cfg(may_verif)]
+            vf::ev(vf::tail, self.tail.get(), "store", next as u64, || 0);
             *self.tail.get() = next;
 
             // we take the next value, this is why use option to host the value
+            #[cfg(may_verif)]
+            vf::ev(vf::value, &(*next).value, "take", 0, || (*next).value.is_some() as u64);
             let ret = (*next).value.take().unwrap();
             if (*tail).refs.fetch_sub(1, Ordering::AcqRel) == 1 {
                 // release the node only when the ref count becomes 0
@@ -307,13 +343,19 @@ impl<T> Queue<T> {
                 }
                 backoff.snooze();
             }
+            #[cfg(may_verif)]
+            vf::ev(vf::prev, &(*next).prev, "store", 0, || 0);
             (*next).prev = ptr::null_mut();
             // move the tail to next
+            #[cfg(may_verif)]
+            vf::ev(vf::tail, self.tail.get(), "store", next as u64, || 0);
             *self.tail.get() = next;
 
             assert!((*tail).value.is_none());
             assert!((*next).value.is_some());
             // we tack the next value, this is why use option to host the value
+            #[cfg(may_verif)]
+            vf::ev(vf::value, &(*next).value, "take", 0, || (*next).value.is_some() as u64);
             let ret = (*next).value.take().unwrap();
             if (*tail).refs.fetch_sub(1, Ordering::AcqRel) == 1 {
                 // release the node only when the ref count becomes 0
